@@ -203,12 +203,17 @@ def gen_scenarios(spec, rng, n):
         client = rng.choice(kinds)
         nact = 1 if client != "async" else rng.choice([1, 2])
         actors = [{"start": 0.0, "ops": []} for _ in range(nact)]
-        for j in range(rng.randint(1, 3)):
+        prev = None
+        for j in range(rng.randint(1, 4)):
             fs, s, m, cls = rng.choice(cands)
+            if prev and rng.random() < 0.25:
+                fs, s, m, cls = prev           # the same RPC again on the same client (state carried between calls)
+            prev = (fs, s, m, cls)
             if client == "rest" and (not m.get("http") or m["http"]["verb"] == "custom"):
                 continue
             actors[j % nact]["ops"].append(gen_op(spec, rng, codec, fs, s, m, cls, f"o{j}", client))
         actors = [a for a in actors if a["ops"]]
+        engine.add_in_place_edits(rng, actors)
         if actors and sum(len(a["ops"]) for a in actors) >= 2 and rng.random() < 0.3:
             for a in actors:
                 for op in a["ops"]:
